@@ -136,7 +136,26 @@ func genLinkTree(rng *Rng, odd int, allowFrac bool) JObj {
 	for i := rng.Intn(2); i > 0; i-- {
 		env = env.Set(genStr(rng, 10), genAnyVal(rng, 2, allowFrac))
 	}
-	return O("_type", "link", "name", genStr(rng, odd/2), "materials", genArtsTree(rng, odd), "products", genArtsTree(rng, odd),
+	mats, prods := genArtsTree(rng, odd), genArtsTree(rng, odd)
+	if mo, ok := mats.(JObj); ok && len(mo) > 0 && rng.Chance(50) {
+		// the normal case: files the step left alone or modified are named among the materials AND
+		// among the products (with the same or another digest); every entry of either map is subject
+		// to the format rules (seeded change c12-products-named-like-materials-unchecked)
+		po, _ := prods.(JObj)
+		for _, kv := range mo {
+			if rng.Chance(60) {
+				v := kv.V
+				if rng.Bool() {
+					v = O("sha256", genHex(rng, 8))
+				}
+				po = po.Set(kv.K, v)
+			}
+		}
+		if po != nil {
+			prods = po
+		}
+	}
+	return O("_type", "link", "name", genStr(rng, odd/2), "materials", mats, "products", prods,
 		"byproducts", byv, "command", genStrList(rng, odd, 4), "environment", env)
 }
 
